@@ -52,6 +52,23 @@ CLAIMS = {
     "C20": ("Decides well-formedness (own id, kind/price) at all 11 construction sites, that an access test on the very market dominates every construction (or setup rejects the target), FCN direction (strict comparators, one order per active mode) and fixed-margin quotes E(1-k)/E(1+k), market-maker symmetry with m = fundamental x spread / 2, the arbitrage precondition/direction/volume table and the market-share agent's single delegation on an accessible market. The numeric expected-return formula is NOT decided.",
             "construction-site lint + guard dominance + direction tables + polynomial forms", "5"),
 }
+# clauses added after the first claim (rules written from the seeded changes, DESIGN.md section 10.3)
+EXTRA = {
+    "C01": "Shared premise: tick rounding of the limits a trade is held to (C19.R2).",
+    "C04": "Also: removal by equality removes the order meant (Order equality implies equal ids); the `now` of expiry is the market clock (both books are set to it at every clock write, C06.R6).",
+    "C05": "Also: the holdings containers do not escape (getters return values or copies, no rebinding outside the owner).",
+    "C06": "Also: both order books are set to exactly the market's new time by every clock method and store exactly the time they are given.",
+    "C09": "Which generator provides a draw is not part of this claim (C07 decides that); the session keys behind switches, caps and rate are decided by the rule shared with C18.",
+    "C10": "Also: every subclass constructor forwards the logger; record fields are read after the event's last write (stale locals are reported).",
+    "C12": "Also decided: lookups return values only below the regeneration point (or, if they go by series length, every mover of the point cuts the tail); chunk planning (a chunk ends at the next market start; exactly the markets started before the chunk's end are regenerated); every drift is taken from the id list of its own partition.",
+    "C13": "Also: a hook is registered under its own time list when one is given (an empty list is not `always`), dispatch loops never stop early, every declared hook is registered for the event that declared it (closure or method callback).",
+    "C14": "Also: the window length is the configured value and has no other writer. Shared premises: dispatch reaches every hook (C13.R2), regeneration continues from the shocked level (C12.R1).",
+    "C15": "Also: the target table holds exactly the configured markets under their own names and is created per rule object. Shared premise: the rule's hook is registered for that very rule (C13.R5).",
+    "C16": "Also: target table and halt records are per rule object and hold the configured markets. Shared premises: dispatch of fill and step-begin hooks (C13.R2), market-price refresh after a fill (C08.R2).",
+    "C18": "Also: the configuration is never changed in place (group expansion works on the copy returned by json_extends), so a parent group read later still carries its count, range and prefix.",
+    "C19": "The side is decided by the truth value of the flag (as the order book files the order), not by identity with True.",
+    "C20": "Also: the FCN expected future price is the documented formula, decided as a polynomial identity over its components (weights, log ratios, window, noise draw) for both trend attitudes; an arbitrage agent passes every market's basket on whole. Evaluation of the formula in floats is not decided.",
+}
 TECH_DEFAULT = "AST path summaries, call graph and writer sets"
 
 
@@ -63,6 +80,8 @@ def main() -> None:
         have = os.path.exists(os.path.join(VERIF, "pamsa", "rules", pid.lower() + ".py"))
         if have and pid in CLAIMS:
             text, tech, sec = CLAIMS[pid]
+            if pid in EXTRA:
+                text = text.rstrip() + " " + EXTRA[pid]
             checks.append({
                 "property_id": pid,
                 "quick_cmd": f"./check {pid} --tier quick",
